@@ -8,9 +8,10 @@ Mirrors
   format: 32 bytes little-endian, canonical) and `SerdeObject::read_raw` (Montgomery limbs, `< r`);
 * `curves/src/bls12_381/g1.rs: G1Affine::from_compressed` = blst `blst_p1_uncompress`
   (`POINTonE1_Uncompress_Z`) + `is_on_curve & is_torsion_free`;
-  `G1Affine::from_uncompressed` (= `SerdeObject::read_raw`, the RawBytes format) = blst
-  `blst_p1_deserialize` (`POINTonE1_Deserialize_Z`: it dispatches on the flag bits and ALSO accepts
-  a compressed encoding in the first 48 bytes) + `is_on_curve`;
+  `G1Affine::from_uncompressed` (= `SerdeObject::read_raw`, the RawBytes format) = a check that
+  the compression bit is clear + blst `blst_p1_deserialize` (`POINTonE1_Deserialize_Z`: it
+  dispatches on the flag bits and would ALSO accept a compressed encoding in the first 48 bytes)
+  + `is_on_curve`;
 * the same for `g2.rs` over `Fp2` (byte order `c1 ‖ c0`);
 * `proofs/src/utils/helpers.rs: ProcessedSerdeObject::read` (format dispatch, `read_exact`).
 -/
@@ -94,9 +95,12 @@ def deserializeG1 (a : Bytes) : Except Err G1Pt :=
       if b0 % 64 = 0 && allZero t then .ok .inf else .error .point
     else .error .point
 
-/-- `G1Affine::from_uncompressed` (96 bytes, the RawBytes format): deserialize, then `is_on_curve`. -/
+/-- `G1Affine::from_uncompressed` (96 bytes, the RawBytes format): reject the compression bit
+(`bytes[0] & 0x80 == 0`, so that blst's compressed branch is never taken), deserialize, then
+`is_on_curve`. -/
 def decodeG1u (a : Bytes) : Except Err G1Pt :=
   if a.length ≠ 96 then .error .eof else
+  if a.headD 0 / 128 % 2 = 1 then .error .point else
   match deserializeG1 a with
   | .error e => .error e
   | .ok .inf => .ok .inf
@@ -168,6 +172,7 @@ def deserializeG2 (a : Bytes) : Except Err G2Pt :=
 (unlike G1, the uncompressed G2 decoder does check the subgroup). -/
 def decodeG2u (a : Bytes) : Except Err G2Pt :=
   if a.length ≠ 192 then .error .eof else
+  if a.headD 0 / 128 % 2 = 1 then .error .point else
   match deserializeG2 a with
   | .error e => .error e
   | .ok .inf => .ok .inf
